@@ -163,6 +163,7 @@ class Stats:
         self.failures = []  # list of {"desc", "violations"}
         self.last_fail = None
         self.extra = Counter()
+        self.survey_examples = {}
 
     def record(self, engine, desc, viols, known):
         self.evaluations += 1
@@ -192,6 +193,7 @@ class Stats:
             "samples": self.samples,
             "failures": self.failures,
             "extra": dict(self.extra),
+            "survey_examples": self.survey_examples,
         }
 
 
@@ -252,6 +254,12 @@ def _run_hypothesis(engine, unit, stats, known):
     def test(desc):
         viols = judge_safely(engine, desc)
         unknown = stats.record(engine, desc, viols, known)
+        if unknown and unit.get("survey"):
+            for v in unknown:
+                stats.extra["survey:" + v["sig"]] += 1
+                if v["sig"] not in stats.survey_examples:
+                    stats.survey_examples[v["sig"]] = v["msg"]
+            return
         if unknown:
             stats.last_fail = {"desc": desc, "violations": unknown}
             raise ViolationFound(unknown[0]["sig"])
@@ -329,6 +337,7 @@ def main(argv=None):
     ap.add_argument("--procs", type=int, default=int(os.environ.get("VERIF_PROCS", "16")))
     ap.add_argument("--no-regress", action="store_true")
     ap.add_argument("--no-evidence", action="store_true")
+    ap.add_argument("--survey", action="store_true", help="development: count violation signatures, never stop/shrink")
     args = ap.parse_args(argv)
     prop = args.prop.upper()
     try:
@@ -387,7 +396,7 @@ def run_check(prop, tier, seed, args):
             k = min(k, n)
             for s in range(k):
                 units.append(dict(prop=prop, engine=e.name, tier=tier, seed=seed, shard=s,
-                                  nshards=k, n=(n + k - 1) // k))
+                                  nshards=k, n=(n + k - 1) // k, survey=args.survey))
         if e.enumerate is not None:
             k = max(1, int(e.shards.get(tier, 1)))
             for s in range(k):
@@ -432,6 +441,17 @@ def run_check(prop, tier, seed, args):
         for f in r["failures"]:
             failures.append((r["engine"], f))
 
+    if args.survey:
+        tot = Counter()
+        ex = {}
+        for r in results:
+            tot.update({k: v for k, v in r.get("extra", {}).items() if k.startswith("survey:")})
+            for k, v in r.get("survey_examples", {}).items():
+                ex.setdefault(k, v)
+        print(f"SURVEY over {total_eval} cases:")
+        for k, v in tot.most_common():
+            print(f"  {v:6d}  {k[7:]}   e.g. {ex.get(k[7:], '')[:230]}")
+        return 0
     # report
     seen = set()
     nviol = 0
